@@ -89,7 +89,7 @@ add("C17", "exploration",
 add("C01", "exploration",
     "property-based testing (proptest) + exhaustive boundary sweep: invariant over the yielded history (ordering, containment, gap bound, end point, Euler grid) through next() and collect_vec, on a generated family of smooth problems and configurations",
     "Generated (solver, problem, t0, dt_min, dt_max, tolerance, interval length) configurations incl. tolerances recentred on the first-step estimate (forces rejections) and intervals from a fraction of a step to thousands of steps; the start-up boundaries (interval = (j+delta) first steps, j=0..9, six deltas) are swept exhaustively for all seven solvers on four problems.",
-    "Exploration only. Time comparisons carry the slack 16 eps max(|t0|,|t_end|). Paths that end with a solver error are judged up to the error (completion is C05's claim).",
+    "Exploration only. Time comparisons carry the slack 16 eps max(|t0|,|t_end|); a completed path that misses the ending time by less than that (a few ulps) is the recorded finding K4 and reported as KNOWN-FINDING, anything larger is a violation. Paths that end with a solver error are judged up to the error (completion is C05's claim).",
     "DESIGN.md 4/C01")
 add("C02", "exploration",
     "property-based testing (proptest) with exact/reference flows: every consecutive pair of yielded points is compared with the exact solution restarted at the previous point (closed-form flows; 3-stage Gauss-Legendre reference flow for the generic family)",
